@@ -82,3 +82,7 @@ extend("C19", lambda t: t.startswith(_RUST_HELPERS), "Rust test-context / async-
 _C12_OWNED_ELSEWHERE = ("src/linters/srp/", "src/linters/nesting/", "src/linters/magic_numbers/", "src/linters/dry/",
                         "src/analyzers/", "src/linters/unwrap_abuse/", "src/linters/clone_abuse/", "src/linters/blocking_async/")
 extend("C12", lambda t: t.startswith(_C12_OWNED_ELSEWHERE), "name extraction / position / message units of the other linters")
+
+# ---- C13: nesting depth is a function of the TREE SHAPE only (which statements contain which), never of line numbers or of
+# ---- blank / comment lines between them: the depth recursions of the three nesting analyzers run under C13 as well
+extend("C13", lambda t: t.startswith("src/linters/nesting/"), "nesting depth recursions read node kinds and child lists only")
